@@ -77,6 +77,17 @@ CLAIMED = {
         note="Decides the per-call contract exactly up to the numeric value of loader results (byte order: C10; half "
              "floats: C15). Client callbacks are outside the program.",
         design="§4 C08"),
+    "C09": dict(
+        technique="per-call contract of the loop-free decoder by exhaustive path enumeration: effect summaries (stateless), data-dependence of source_size, claim-before-read, NEDATA/required rules with wrap obligation",
+        text="The library's share of the fragment-delivery property is a per-call contract, decided on all paths for all 256 "
+             "initial bytes: the decoder is stateless (no allocation, global or static), the buffer length influences the "
+             "outcome only through claim_bytes' comparison and every read lies below the claimed total (so FINISHED on a "
+             "buffer = identical FINISHED on any extension of it), and every NEDATA asks for claimed + failing amount "
+             "under 'amount > provided - claimed', proved not to wrap - strictly more than buffered, never more than the "
+             "pending item.",
+        note="Equality of event sequences over all fragmentations follows by induction on cut points from these clauses: "
+             "an argument, not machine-checked. The client loop itself is outside the library.",
+        design="§4 C09"),
     "C10": dict(
         technique="table extraction by path enumeration of every public encoder (interval partition of the value domain, stored-byte terms) and of the integer loaders, compared with the RFC 8949 head reference and with T-dispatch",
         text="For every public cbor_encode_* all paths are enumerated with the primitives inlined; each path gives a value "
@@ -88,6 +99,15 @@ CLAIMED = {
              "decided (half-precision arithmetic is declined under C15). If an encoder or loader is rewritten as a loop "
              "or memcpy+bswap the extractor reports analysis-broken rather than pass.",
         design="§4 C10"),
+    "C14": dict(
+        technique="claim-before-read and source_size data-dependence on all decoder paths; window / loop-continuation / read-accumulation rules over cbor_load's paths unrolled to three decoder calls",
+        text="No look-ahead: every byte the decoder reads lies below the read count it reports and the buffer length only "
+             "feeds claim comparisons; cbor_load passes source + r / size - r for the same r = result->read, continues "
+             "on the decoding stack's size alone, returns the root immediately when it empties, and read accumulates "
+             "exactly the FINISHED results. Hence decoding x followed by y performs the identical decoder calls with "
+             "identical outcomes as decoding x alone.",
+        note="The n-item split of a concatenation follows by induction (argument).",
+        design="§4 C14"),
     "C16": dict(
         technique="DFA extraction from the constant table + exhaustive product construction against an RFC 3629 reference automaton (language equivalence); path enumeration of the counting loop and of the attachment",
         text="The step function's terms are extracted from _cbor_unicode_decode's IR and tabulated over (state, byte) using "
